@@ -32,4 +32,34 @@ structure AddPathTuple where
   rx : Bool
 deriving Repr, DecidableEq, Inhabited
 
+/-- what `netip.Addr` methods can tell: `IsValid`, `Is4`, `Is6` -/
+inductive AddrKind where
+  | invalid | v4 | v6
+deriving Repr, DecidableEq, Inhabited
+
+/-- an address: its kind and an identity (the string form used as map key) -/
+structure Addr where
+  kind : AddrKind
+  id : Nat
+deriving Repr, DecidableEq, Inhabited
+
+def Addr.isValid (a : Addr) : Bool := a.kind ≠ .invalid
+def Addr.is4 (a : Addr) : Bool := a.kind = .v4
+def Addr.is6 (a : Addr) : Bool := a.kind = .v6
+
+/-- `PeerConfig` + the `peerOptions` that matter here -/
+structure PeerCfg where
+  remote : Addr
+  localAS : UInt32
+  remoteAS : UInt32
+  localAddr : Addr := ⟨.invalid, 0⟩     -- `WithLocalAddress`; invalid = not configured
+  holdNs : Int := 90000000000          -- `time.Duration`
+  port : Int := 179
+  passive : Bool := false
+deriving Repr, DecidableEq, Inhabited
+
+inductive ApiErr where
+  | invalidOptions | invalidConfig | alreadyExists | notExist | serverClosed
+deriving Repr, DecidableEq, Inhabited
+
 end CoreBGP
